@@ -936,6 +936,20 @@ pub fn parse_decimal<T: DecimalType>(
         _ => (false, false),
     };
 
+    // With a negative scale the last `-scale` integer digits lie below the least significant
+    // position the type stores; they are discarded, exactly like the fractional digits beyond
+    // a positive scale. (Exponent notation is rescaled by `parse_e_notation`.)
+    let int_start = signed as usize;
+    let int_digits = if scale < 0 && !bs.iter().any(|b| matches!(b, b'e' | b'E')) {
+        let int_len = bs[int_start..]
+            .iter()
+            .take_while(|b| b.is_ascii_digit())
+            .count();
+        int_len.saturating_sub(scale.unsigned_abs() as usize)
+    } else {
+        usize::MAX
+    };
+
     // Iterate over the raw input bytes, skipping the sign if any
     let mut bs = bs.iter().enumerate().skip(signed as usize);
 
@@ -946,6 +960,10 @@ pub fn parse_decimal<T: DecimalType>(
     while let Some((index, b)) = bs.next() {
         match b {
             b'0'..=b'9' => {
+                if index - int_start >= int_digits {
+                    // Below the least significant stored position (negative scale).
+                    continue;
+                }
                 if digits == 0 && *b == b'0' {
                     // Ignore leading zeros.
                     continue;
@@ -978,7 +996,7 @@ pub fn parse_decimal<T: DecimalType>(
                             "can't parse the string value {s} to decimal"
                         )));
                     }
-                    if fractionals == scale {
+                    if fractionals >= scale {
                         // We have processed all the digits that we need. All that
                         // is left is to validate that the rest of the string contains
                         // valid digits.
